@@ -2,13 +2,16 @@
 (spec/Bounded.tla, spec/Unblind.tla, spec/Collector.tla).
 
 Parts (each: TLC-made scenarios -> real code -> recorded trace -> TLC trace validation):
-  ctl    long runs of the real controller + attester + sync committee messenger / aggregator
+  ctl    long runs of ONE real controller + attester + sync committee messenger / aggregator set per scenario
          (virtual time, recording scheduler), and the in-flight batch: short runs in which the duties of the
          current epoch are refreshed while one of its attestation jobs is running (held at the node);
-         Trace_Bounded
+         calls complete OUT OF SLOT ORDER: gates behind the real messenger (head root provider), attester
+         (attestation data) and controller (beacon committee subscriber) hold chosen slots' requests while
+         the jobs of later slots run and release them late (up to 13 slots) / in reverse order; Trace_Bounded
   real   the same services on the real scheduler (wall clock, short slots); Trace_Bounded (Sample lines,
          InFlight lines for attestations held while their epoch is refreshed)
-  bids   the real block relay's builderBidsCache; Trace_Bounded (Auction lines)
+  bids   the real block relay's builderBidsCache, auctions held inside the bid strategy and answered up to
+         40 slots late; Trace_Bounded (AucStart / AucEnd lines)
   strat  the seven `first` strategies: goroutines left blocked in their send; Trace_Unblind
   unb    unblindProposal: blocked senders, waiting for ever; Trace_Unblind
 """
@@ -120,27 +123,69 @@ def call_scenarios(tier, rnd):
     unb = [s for s in inits if s["kind"] == "unblind"]
     if len(first) < 300 or len(unb) < 3000:
         raise vf.Broken("scenario enumeration of Unblind.tla is incomplete (%d, %d)" % (len(first), len(unb)))
+    # The strategy / the proposer is ONE long-lived instance (UnblindInst.tla: NextCall starts any further call on
+    # it): a scenario is a HISTORY - `hist` = the calls made on the same real instance before the scenario's own
+    # call, each of them a call configuration enumerated by TLC; every call of the history is logged and judged.
     strat, k = [], 3000
     crowded = [s for s in first if s["plan"].count("ok") >= 3]
     for site in SITES:
         pick = rnd.sample(crowded, 3) + rnd.sample(first, 8 if tier == "quick" else 120)
-        for s in pick:
+        for j, s in enumerate(pick):
             k += 1
-            strat.append({"sc": k, "part": "strat", "site": site, "kind": "first", "n": s["n"], "plan": s["plan"], "T": 150})
+            same = [x for x in first if x["n"] == s["n"]]
+            hist = []
+            if j < 3:
+                # every node answers, twice in a row (what a result channel kept on the instance cannot take)
+                hist = [rnd.choice([x for x in crowded if x["n"] == s["n"]])["plan"] for _ in range(2)]
+            elif j % 2 == 1:
+                hist = [x["plan"] for x in rnd.sample(same, 1 + j % 4 // 2)]
+            strat.append({"sc": k, "part": "strat", "site": site, "kind": "first", "n": s["n"], "plan": s["plan"], "T": 150,
+                          "hist": hist})
     calls, k = [], 5000
     allok = [s for s in unb if s["n"] >= 3 and s["plan"].count("ok") == s["n"]]
     allfail = [s for s in unb if all(x in ("err400", "err3", "nil") for x in s["plan"])]
     pick = allok + rnd.sample(allfail, 6 if tier == "quick" else 40) + rnd.sample(unb, 36 if tier == "quick" else 400)
-    for s in pick:
+    quickreply = [s for s in unb if all(x in ("ok", "err400", "nil") for x in s["plan"])]
+    for j, s in enumerate(pick):
         for hold in (True, False):
             k += 1
+            hist = []
+            if j < len(allok) and hold:
+                hist = [dict(rnd.choice(allok), hold=True)]
+            elif j >= len(allok) and j % 4 == 0:
+                hist = [dict(rnd.choice(quickreply), hold=hold)]
             calls.append({"sc": k, "part": "unb", "site": "unblindProposal", "kind": "unblind", "n": s["n"],
-                          "deadline": s["deadline"], "plan": s["plan"], "hold": hold})
+                          "deadline": s["deadline"], "plan": s["plan"], "hold": hold,
+                          "hist": [{"n": h["n"], "deadline": h["deadline"], "plan": h["plan"], "hold": h["hold"]} for h in hist]})
     return strat, calls
 
 
 # --------------------------------------------------------------------------------------
 # what a rejection is about
+
+def late_completions(s, rows):
+    """what the binding really did out of order: head roots set for a slot more than an epoch late (MsgEnd lines
+    of a request that the node kept back while the requests of later slots were answered), pairs of neighbouring
+    slots answered in reverse order, late subscriptions, late attestation jobs, late auctions"""
+    p = s["steps"][0].get("p", 4)
+    n = {"late_roots": 0, "reversed_pairs": 0, "late_subs": 0, "late_atts": 0, "late_auctions": 0}
+    ended = set()
+    for r in rows:
+        ev = r.get("ev")
+        if ev == "MsgEnd" and r.get("fired") and r.get("ok"):
+            if r.get("late", 0) > p:
+                n["late_roots"] += 1
+            if r["s"] + 1 in ended:
+                n["reversed_pairs"] += 1
+            ended.add(r["s"])
+        elif ev == "SubEnd" and r.get("fired") and r["e"] + 1 < r.get("now", 0) // p:
+            n["late_subs"] += 1
+        elif ev == "AttEnd" and r.get("gated") and r.get("now", 0) > r["s"] + 1:
+            n["late_atts"] += 1
+        elif ev == "AucEnd" and r.get("late", 0) > 32:
+            n["late_auctions"] += 1
+    return n
+
 
 def sig_bounded(s, aspect):
     h = s["steps"][0]
@@ -177,10 +222,10 @@ def nontrivial_bounded(s, rows):
             failed = True
         prev = cur
     if s["part"] == "bids":
-        return sum(1 for r in rows if r.get("ev") == "Auction") > 64
+        return sum(1 for r in rows if r.get("ev") in ("Auction", "AucEnd")) > 64 and late_completions(s, rows)["late_auctions"] > 0
     if s["part"] == "real":
         return any(r.get("ev") == "Sample" and r.get("njobs", 0) > 0 for r in rows)
-    return (withdrew and failed) or refreshed_in_flight(s, rows) > 0
+    return (withdrew and failed) or refreshed_in_flight(s, rows) > 0 or late_completions(s, rows)["late_roots"] > 0
 
 
 def nontrivial_call(s, rows):
@@ -212,6 +257,21 @@ def conform(v, part, scenarios, tier, aspects, sig_of, nontrivial, confirm_patie
             v.coverage["refreshes_with_job_in_flight"] = v.coverage.get("refreshes_with_job_in_flight", 0) + hits
         if len(scenarios) > 1 and hits < 5:
             raise vf.Broken("only %d refreshes were recorded while an attestation job of the epoch was running" % hits)
+    if part in ("ctl", "bids"):
+        # ... and the out-of-order completions the long runs are made for
+        tot = {}
+        for s in scenarios:
+            for k, x in late_completions(s, per[s["sc"]]).items():
+                tot[k] = tot.get(k, 0) + x
+        with _lock:
+            for k, x in tot.items():
+                if x or part == "ctl" and k != "late_auctions":
+                    v.coverage[k] = v.coverage.get(k, 0) + x
+        if len(scenarios) > 1:
+            need = {"late_roots": 20, "reversed_pairs": 5, "late_subs": 5, "late_atts": 5} if part == "ctl" else {"late_auctions": 40}
+            for k, m in need.items():
+                if tot.get(k, 0) < m:
+                    raise vf.Broken("only %d %s were recorded (need %d): calls completed in slot order" % (tot.get(k, 0), k, m))
     if part == "real":
         with _lock:
             v.coverage["real_refreshes_with_job_in_flight"] = v.coverage.get("real_refreshes_with_job_in_flight", 0) + \
@@ -316,31 +376,54 @@ def model_checking(v, tier):
     """Exhaustive runs of the designs, and the sensitivity of the models: the housekeeping and the
     channel capacities of the code as found must violate each invariant (else the model is vacuous)."""
     jobs = [("Bounded", "MC_Bounded.cfg", 8), ("Unblind", "MC_Unblind.cfg", 4), ("Collector", "MC_Collector_c20.cfg", 4),
+            # histories of calls on one strategy / proposer instance; a result channel kept on the instance is right on
+            # every fresh instance
+            ("UnblindInst", "MC_UnblindInst.cfg", 2), ("UnblindInst", "MC_UnblindInst_carrychan_fresh.cfg", 2),
             # a refresh that clears the mark of every slot of the epoch: invisible while no job is running
-            ("Bounded", "MC_Bounded_clearall_atrest.cfg", 2)]
+            ("Bounded", "MC_Bounded_clearall_atrest.cfg", 2),
+            # calls that complete out of slot order: sync committee message jobs and auctions answered 1 slot
+            # (reverse order of neighbours) and 3 slots (beyond the window) late; the subscription of a Prepare step
+            # 5 slots late; attestation jobs 3 slots late (across the epoch boundary)
+            ("Bounded", "MC_Bounded_sync.cfg", 4), ("Bounded", "MC_Bounded_sub.cfg", 2),
+            # pruning by a carried low-water mark: invisible while calls complete in slot order
+            ("Bounded", "MC_Bounded_sweep_inorder.cfg", 2)]
     if tier == "thorough":
-        jobs += [("Bounded", "MC_Bounded_big.cfg", 8), ("Unblind", "MC_Unblind_big.cfg", 8)]
+        jobs += [("Bounded", "MC_Bounded_big.cfg", 8), ("Unblind", "MC_Unblind_big.cfg", 8),
+                 ("Bounded", "MC_Bounded_sync_big.cfg", 4), ("Bounded", "MC_Bounded_late_big.cfg", 4),
+                 ("Bounded", "MC_Bounded_attlate.cfg", 2)]
     res = []
-    with ThreadPoolExecutor(max_workers=3) as ex:
+    with ThreadPoolExecutor(max_workers=5) as ex:
         futs = [ex.submit(vf.tlc_exhaustive, sub("mc"), m, c, w, 2400, "6g", tier == "thorough" and m != "Collector")
                 for m, c, w in jobs]
         pinned = [ex.submit(vf.tlc, sub("mc"), "sim-" + a, "Bounded", "MC_Bounded_pinned_%s.cfg" % a, 2, 600, None,
                             "num=4000", 900, "2g", False, False, None, 1) for a in PINNED]
         pinned_calls = [ex.submit(vf.tlc, sub("mc"), "pin-" + c, m, c + ".cfg", 2, 600)
                         for m, c in [("Unblind", "MC_Unblind_pinned_first"), ("Unblind", "MC_Unblind_pinned_cap"),
-                                     ("Unblind", "MC_Unblind_pinned_wait"), ("Collector", "MC_Collector_c20_cap1")]]
+                                     ("Unblind", "MC_Unblind_pinned_wait"), ("Collector", "MC_Collector_c20_cap1"),
+                                     # ... and is rejected over histories; the second call of a history is reachable
+                                     ("UnblindInst", "MC_UnblindInst_carrychan"), ("UnblindInst", "MC_UnblindInst_reach")]]
         # jobs with duration: the model contains a refresh over a running job (CancelJob fails), the late
         # reschedule over a running job, two jobs running; and clearing every mark of the epoch violates
         # PendingExact
         sens = [(c, inv, ex.submit(vf.tlc, sub("mc"), "sens-" + c, "Bounded", c + ".cfg", 2, 600))
                 for c, inv in [("MC_Bounded_clearall", "PendingExact")] +
-                [("MC_Bounded_reach_" + x, x) for x in ("NeverRefreshOverRunning", "NeverReschedOverRunning", "NeverTwoRunning")]]
+                [("MC_Bounded_reach_" + x, x) for x in ("NeverRefreshOverRunning", "NeverReschedOverRunning", "NeverTwoRunning",
+                                                         # out-of-order completion is in the model: a head root / bid /
+                                                         # subscription info set for a key far below one set earlier, two
+                                                         # message jobs under way at once
+                                                         "NeverLateRoot") +
+                 (("NeverLateBid", "NeverLateSub", "NeverTwoMessages") if tier == "thorough" else ())]]
+        # ... and a housekeeping that prunes with a carried low-water mark (right whenever keys arrive in order:
+        # MC_Bounded_sweep_inorder above) must break each bound once they do not
+        sens += [("MC_Bounded_sweep_" + a, a, ex.submit(vf.tlc, sub("mc"), "sweep-" + a, "Bounded", "MC_Bounded_sweep_%s.cfg" % a,
+                                                         2, 600, None, "num=4000", 900, "2g", False, False, None, 1))
+                 for a in ("RootsBounded", "BidsBounded", "SubsBounded")]
         for f in futs:
             res.append(f.result())
         for c, inv, f in sens:
             r = f.result()
             if r["kind"] != "invariant" or r["violated"] != inv:
-                raise vf.Broken("%s no longer violates %s: the model lacks the running-job situations (%s %s)"
+                raise vf.Broken("%s no longer violates %s: the model lacks the running-job / out-of-order situations (%s %s)"
                                 % (c, inv, r["kind"], r["violated"]))
         for a, f in zip(PINNED, pinned):
             r = f.result()
@@ -360,7 +443,7 @@ def run(tier):
     rnd = random.Random(vf.seed())
     v.assumptions = [
         "Env_OutageBounded: at most G = 2 consecutive epochs without any head event, and at most 2 consecutive epochs in which attestations ran but none succeeded (bounds 4 + G on the epoch-keyed maps)",
-        "a timely scheduler: every job of a slot has run when the slot ends (the driver fires the recording scheduler's due jobs; the real scheduler is observed as it is)",
+        "a timely scheduler: every job of a slot has STARTED when the slot ends (the driver fires the recording scheduler's due jobs; the real scheduler is observed as it is); jobs end when the node answers: at most 2 requests of a kind (6 auctions) are kept back beyond their slot at a time, for at most 13 slots (subscriptions 14, auctions 44) - the bounds leave room for these entries on top of the window",
         "beacon node, relays, signers, submitters, accounts are scripted fakes at the services' interfaces; sync committee duties are constant (validator 1), three validators attest",
         "a goroutine parked in a channel send of a call that has returned stays parked (the caller is the only receiver); judged after every fake has answered and a quiescence period, confirmed by re-running the call alone with a longer period",
         "unblindProposal is steered at the relay's answer and at the trace-level log line between its semaphore check and its final acquire (the log writer blocks there): a legitimate interleaving, made deterministic",
@@ -437,13 +520,18 @@ def run(tier):
         "ctl/real/bids: TLC-simulated behaviours of Bounded.tla (duty patterns incl. empty epochs, head events and "
         "whole-epoch gaps, reorgs that refresh scheduled duties, node outages, aggregator never/sometimes/always, inclusion "
         "verification on/off; attestation jobs with duration: head events, refreshes of the running job's epoch, late "
-        "duty replies, the next slot's job, probes and the clock between AttStart and AttEnd) of 64+ epochs (quick) / 256+ "
+        "duty replies, the next slot's job, probes and the clock between AttStart and AttEnd; calls that complete out of slot "
+        "order on the one set of instances: the head root request of a sync committee message job, the attestation data "
+        "request, the beacon committee subscription of a Prepare step and the block auction are kept back by gates behind the "
+        "real services for 0-13 (auctions 0-44) slots while the calls of later slots run, two neighbouring slots answered in "
+        "reverse order, at most 2 (auctions 6) kept back at a time) of 64+ epochs (quick) / 256+ "
         "(thorough), plus an in-flight batch of 11-epoch behaviours in which the current epoch is only refreshed while one "
         "of its attestation jobs is running, replayed on the real controller + attester + sync "
         "committee messenger/aggregator (virtual time), on the real scheduler (wall clock), and on the real block relay; "
         "strat/unb: initial states of Unblind.tla (enumerated by TLC, sampled) replayed on the seven `first` strategies and "
-        "on unblindProposal. non-trivial = a refresh withdrew a scheduled attestation and an attestation run failed, or an "
-        "epoch was refreshed while one of its attestation jobs was running (ctl), jobs seen in the real table (real), more auctions than the window (bids), three or more providers "
+        "on unblindProposal, as HISTORIES: up to two earlier TLC-enumerated calls on the same real strategy instance / proposer "
+        "before the scenario's own call, every call judged. non-trivial = a refresh withdrew a scheduled attestation and an attestation run failed, or an "
+        "epoch was refreshed while one of its attestation jobs was running, or a head root was set more than an epoch late (ctl), jobs seen in the real table (real), more auctions than the window and one answered more than 32 slots late (bids), three or more providers "
         "answering, or every relay failing under a context without deadline (calls); distinct by scenario content")
     return v.finish()
 
